@@ -55,6 +55,8 @@ type act struct {
 	Delay []int // race: spin iterations of each goroutine after the barrier (seeded skew)
 }
 
+const nProd = 3 // goroutines that call AddAnyway (they may stay inside the call while the lane is full)
+
 const nCall = 5 // goroutines for the non-blocking calls of a step (a race may need several)
 
 // executors are reused from trace to trace as long as every worker came back
@@ -167,12 +169,14 @@ type lworld struct {
 	q     qa.Queue
 	kind  string
 	x     *qx.Exec
-	busy  [nCons + 1]bool        // consumer has an outstanding Pop
-	gid   [nCons + nCall + 1]int // goroutine ids of the workers (written by the call itself)
-	m     qa.Model               // the harness's own count model of the property (drain length only)
-	mp    int                    // consumers parked according to that model
-	fuzzy bool                   // after a burst / race the model is only an estimate of the length
-	slack int                    // adds of bursts / races refused by the model for capacity
+	pbusy [nProd + 1]bool                // producer has an outstanding AddAnyway
+	pp    []qa.Act                       // count model: adds of producers that the model believes blocked
+	busy  [nCons + 1]bool                // consumer has an outstanding Pop
+	gid   [nCons + nCall + nProd + 1]int // goroutine ids of the workers (written by the call itself)
+	m     qa.Model                       // the harness's own count model of the property (drain length only)
+	mp    int                            // consumers parked according to that model
+	fuzzy bool                           // after a burst / race the model is only an estimate of the length
+	slack int                            // adds of bursts / races refused by the model for capacity
 	dead  bool
 	pend  *pending
 	// the steps still to come: the plan, then the drain
@@ -186,12 +190,18 @@ func (a act) rec() tr.E {
 	if a.Op == "pop" {
 		e["c"] = a.C
 	}
+	if a.Op == "paddw" {
+		e["p"] = a.P
+	}
 	if a.Op == "burst" || a.Op == "race" {
 		recs := make([]tr.E, len(a.Acts))
 		for i, x := range a.Acts {
 			recs[i] = x.Rec()
 			if a.Op == "race" && x.Op == "pop" {
 				recs[i]["c"] = a.RC[i]
+			}
+			if a.Op == "race" && x.Op == "paddw" {
+				recs[i]["p"] = a.RC[i]
 			}
 		}
 		e["acts"] = recs
@@ -213,7 +223,7 @@ func (wd *lworld) issue(a act) bool {
 		// with the rest of the burst
 		var keep []qa.Act
 		for _, x := range a.Acts {
-			if x.Op != "pop" && x.Op != "addw" && qa.Supports(wd.kind, x) && wd.m.Returns(x) {
+			if x.Op != "pop" && x.Op != "addw" && x.Op != "paddw" && qa.Supports(wd.kind, x) && wd.m.Returns(x) {
 				keep = append(keep, x)
 			}
 		}
@@ -236,6 +246,20 @@ func (wd *lworld) issue(a act) bool {
 		inner := a.Act
 		gid := &wd.gid[a.C]
 		wd.x.Issue(a.C, func() interface{} {
+			*gid = goid()
+			return qa.Safe(q, inner)
+		})
+	case "paddw":
+		// AddAnyway on a producer goroutine: it may stay inside the call while the lane is full
+		if !qa.Supports(wd.kind, a.Act) || a.P < 1 || a.P > nProd || wd.pbusy[a.P] {
+			return false
+		}
+		wd.pbusy[a.P] = true
+		sleepers++
+		inner := a.Act
+		inner.Op = "addw"
+		gid := &wd.gid[nCons+nCall+a.P]
+		wd.x.Issue(nCons+nCall+a.P, func() interface{} {
 			*gid = goid()
 			return qa.Safe(q, inner)
 		})
@@ -264,11 +288,17 @@ func (wd *lworld) issueRace(a act) bool {
 	used := map[int]bool{}
 	ncall := 0
 	for i, x := range a.Acts {
-		if !qa.Supports(wd.kind, x) || (x.Op != "pop" && (x.Op == "addw" || !wd.m.Returns(x))) {
+		if !qa.Supports(wd.kind, x) || (x.Op != "pop" && x.Op != "paddw" && (x.Op == "addw" || !wd.m.Returns(x))) {
 			continue
 		}
 		w := 0
-		if x.Op == "pop" {
+		if x.Op == "paddw" {
+			p := a.RC[i]
+			if p < 1 || p > nProd || wd.pbusy[p] || used[-p] {
+				continue
+			}
+			used[-p], w = true, nCons+nCall+p
+		} else if x.Op == "pop" {
 			c := a.RC[i]
 			if c < 1 || c > nCons || wd.busy[c] || used[c] {
 				continue
@@ -298,6 +328,11 @@ func (wd *lworld) issueRace(a act) bool {
 		if x.Op == "pop" {
 			wd.busy[worker[i]] = true
 		}
+		if x.Op == "paddw" {
+			wd.pbusy[worker[i]-nCons-nCall] = true
+			sleepers++
+			x.Op = "addw"
+		}
 		gid := &wd.gid[worker[i]]
 		wd.x.Issue(worker[i], func() interface{} {
 			*gid = goid()
@@ -318,12 +353,12 @@ func (wd *lworld) collect() {
 	rep := qa.Rp("parked", 0)
 	rs := make([]tr.E, 0)
 	switch a.Op {
-	case "pop":
+	case "pop", "paddw":
 	case "race":
 		rep = qa.Rp("race", 0)
 		for i, x := range a.Acts {
-			r := qa.Rp("parked", 0) // a Pop: what it returned (if it did) is in st
-			if x.Op != "pop" {
+			r := qa.Rp("parked", 0) // a Pop / AddAnyway: what it returned (if it did) is in st / pt
+			if x.Op != "pop" && x.Op != "paddw" {
 				if v, ok := wd.x.Take(p.worker[i]); ok {
 					r = v.(tr.E)
 				} else {
@@ -382,7 +417,37 @@ func (wd *lworld) collect() {
 			}
 		}
 	}
-	ev := tr.E{"ev": "step", "a": a.rec(), "r": rep, "st": st}
+	// the producers: returned from AddAnyway with a reply, or still inside it (asleep between two
+	// tries on the unchanged tree; parked on a condition variable would do as well)
+	pt := make([]tr.E, nProd)
+	for pr := 1; pr <= nProd; pr++ {
+		w := nCons + nCall + pr
+		switch {
+		case !wd.pbusy[pr]:
+			pt[pr-1] = tr.E{"s": "idle", "r": none()}
+		default:
+			for tries := 0; ; tries++ {
+				if r, ok := wd.x.Take(w); ok {
+					wd.pbusy[pr] = false
+					sleepers--
+					pt[pr-1] = tr.E{"s": "ret", "r": r.(tr.E)}
+					break
+				}
+				why := lastSnap[wd.gid[w]]
+				if blockedState[why] || why == "sleep" {
+					pt[pr-1] = tr.E{"s": "parked", "r": none(), "why": why}
+					break
+				}
+				if tries >= 8 {
+					pt[pr-1] = tr.E{"s": "unsettled:" + why, "r": none()}
+					wd.dead = true
+					break
+				}
+				settle()
+			}
+		}
+	}
+	ev := tr.E{"ev": "step", "a": a.rec(), "r": rep, "st": st, "pt": pt}
 	// the count model: Closed must be a certainty (a WaitClose with a live context is issued on it),
 	// so a try-close only counts while the model is exact and nothing is added in the same step
 	wasFuzzy := wd.fuzzy
@@ -417,12 +482,19 @@ func (wd *lworld) collect() {
 			}
 		}
 		for _, x := range a.Acts {
+			if x.Op == "paddw" {
+				wd.modelProd(x)
+			}
+		}
+		for _, x := range a.Acts {
 			if x.Op == "pop" {
 				wd.modelPop(x)
 			}
 		}
 	case "pop":
 		wd.modelPop(a.Act)
+	case "paddw":
+		wd.modelProd(a.Act)
 	case "tryclose":
 		if tryCloseCounts {
 			wd.model(a.Act)
@@ -437,6 +509,16 @@ var blockedState = map[string]bool{
 	"sync.Cond.Wait": true, "chan receive": true, "chan send": true, "select": true,
 	"sync.Mutex.Lock": true, "sync.RWMutex.Lock": true, "sync.RWMutex.RLock": true, "semacquire": true,
 	"sync.WaitGroup.Wait": true,
+}
+
+// modelProd: an AddAnyway either happens or is remembered as pending (the lane is full).
+func (wd *lworld) modelProd(x qa.Act) {
+	x.Op = "addw"
+	if wd.m.Returns(x) {
+		wd.model(x)
+	} else {
+		wd.pp = append(wd.pp, x)
+	}
 }
 
 func (wd *lworld) modelPop(x qa.Act) {
@@ -454,9 +536,21 @@ func (wd *lworld) model(x qa.Act) {
 	if x.Op == "add" && wd.fuzzy && !wd.m.Closed && wd.m.Len() == before {
 		wd.slack++
 	}
-	for wd.mp > 0 && wd.m.Len() > 0 {
-		wd.m.Apply(qa.Act{Op: "pop", Any: true})
-		wd.mp--
+	for again := true; again; {
+		again = false
+		for wd.mp > 0 && wd.m.Len() > 0 {
+			wd.m.Apply(qa.Act{Op: "pop", Any: true})
+			wd.mp--
+			again = true
+		}
+		for i := 0; i < len(wd.pp); i++ { // blocked producers get on when there is room (refused once closed)
+			if wd.m.Returns(wd.pp[i]) {
+				wd.m.Apply(wd.pp[i])
+				wd.pp = append(wd.pp[:i], wd.pp[i+1:]...)
+				i--
+				again = true
+			}
+		}
 	}
 	if wd.m.Closed {
 		wd.mp = 0
@@ -534,7 +628,7 @@ func (wd *lworld) next() (act, bool) {
 			if free != 0 {
 				// an upper bound of what is queued: the model's length plus the adds of bursts / races
 				// that the model refused for capacity (in another order they may have been accepted)
-				for i := wd.m.Len() + wd.slack + 1; i > 0; i-- {
+				for i := wd.m.Len() + wd.slack + len(wd.pp) + 1; i > 0; i-- {
 					wd.dq = append(wd.dq, act{Act: qa.Act{Op: "pop", Any: true}, C: free})
 				}
 			}
@@ -561,11 +655,11 @@ func (wd *lworld) advance() bool {
 
 // dress gives the items of a plan their values (see qa.Dress), also inside bursts and races.
 func dress(kind string, rep int, plan []act) {
-	var earlier []int
+	var earlier, now []int // "the same pointer again" refers to items of EARLIER steps only
 	one := func(a *qa.Act) {
 		qa.Dress(dressRng.Intn, kind, rep, a, earlier)
 		if (a.Op == "add" || a.Op == "addw") && a.Vk == qa.VkDefault && rep == 2 {
-			earlier = append(earlier, a.V)
+			now = append(now, a.V)
 		}
 	}
 	for i := range plan {
@@ -573,6 +667,7 @@ func dress(kind string, rep int, plan []act) {
 		for j := range plan[i].Acts {
 			one(&plan[i].Acts[j])
 		}
+		earlier, now = append(earlier, now...), nil
 	}
 }
 
@@ -580,7 +675,7 @@ var dressRng = rand.New(rand.NewSource(1))
 
 func newWorld(src, kind string, ccap, rcap, rep int, plan []act, emit func(tr.E)) *lworld {
 	dress(kind, rep, plan)
-	wd := &lworld{emit: emit, q: qa.New(kind, ccap, rcap, rep), kind: kind, x: getExec(nCons + nCall),
+	wd := &lworld{emit: emit, q: qa.New(kind, ccap, rcap, rep), kind: kind, x: getExec(nCons + nCall + nProd),
 		m: qa.Model{Kind: kind, Ccap: ccap, Rcap: rcap}, plan: plan}
 	emit(tr.E{"ev": "reset", "kind": kind, "ccap": qa.Clamp(ccap), "rcap": qa.Clamp(rcap), "src": src, "rep": rep})
 	return wd
@@ -589,8 +684,20 @@ func newWorld(src, kind string, ccap, rcap, rep int, plan []act, emit func(tr.E)
 // settle waits for global quiescence and keeps the goroutine states seen right after it.
 func settle() {
 	settleWith(settler)
+	// A producer inside AddAnyway polls (sleep, retry) on the unchanged tree: "asleep" counts as
+	// quiet, but it will try again.  While any producer is inside a call, quiescence is only final
+	// after every sleeper has had its retries: the driver sleeps several poll periods (when its own
+	// timer has fired the earlier ones have too) and waits for quiescence again, twice.
+	if sleepers > 0 {
+		for round := 0; round < 2; round++ {
+			time.Sleep(4*qa.AddwSleep + time.Millisecond)
+			settleWith(settler)
+		}
+	}
 	lastSnap = qx.Goroutines()
 }
+
+var sleepers int // producers with an outstanding AddAnyway, over all worlds
 
 // settleWith: no quiescence within the budget is retried; if a goroutine is then still RUNNING
 // inside neptune's code (a call that neither returns nor blocks), that is an observation about the
@@ -724,7 +831,12 @@ func runBatch(w *tr.W, specs []spec) {
 		}
 	}
 	for i, wd := range worlds {
-		putExec(nCons+nCall, wd.x)
+		for pr := 1; pr <= nProd; pr++ { // a producer left behind inside its call no longer counts
+			if wd.pbusy[pr] {
+				sleepers--
+			}
+		}
+		putExec(nCons+nCall+nProd, wd.x)
 		for _, e := range bufs[i] {
 			w.Emit(e)
 		}
@@ -773,6 +885,9 @@ func randList(rng *rand.Rand, kind string, n int) []act {
 			} else {
 				out = append(out, act{Act: mk()})
 			}
+		case x < pPop+36 && kind != "syncq":
+			id++
+			out = append(out, act{Act: qa.Act{Op: "paddw", Lane: "req", V: id}, P: 1 + rng.Intn(nProd)})
 		default:
 			out = append(out, mkAct([]string{"isclosed", "tryclose", "tryclear", "len", "trypop"}[rng.Intn(5)]))
 		}
@@ -1460,6 +1575,47 @@ func raceParked(rng *rand.Rand, kind string, take bool) (plan []act) {
 	return plan
 }
 
+// raceProd: producers blocked in AddAnyway are first-class: a bounded lane is filled, 1-3 producers
+// go to sleep inside AddAnyway, then Pops of 1-3 consumers (room for the producers, whose items the
+// other consumers must get) race a close (the sleeping producers must be refused) and/or another
+// producer; a second race of Pops follows while the queue is still open.
+func raceProd(rng *rand.Rand, kind string, rcap int) (plan []act) {
+	id := 0
+	next := func() int { id++; return id }
+	for i := 0; i < rcap; i++ {
+		plan = append(plan, act{Act: qa.Act{Op: "add", Lane: "req", V: next()}})
+	}
+	k := 1 + rng.Intn(nProd)
+	if rng.Intn(3) == 0 {
+		k = 2 + rng.Intn(nProd-1)
+	}
+	for p := 1; p <= k; p++ {
+		plan = append(plan, act{Act: qa.Act{Op: "paddw", Lane: "req", V: next()}, P: p})
+	}
+	for round := 0; round < 2; round++ {
+		r := act{Act: qa.Act{Op: "race"}}
+		for c, n := 1, 1+rng.Intn(3); c <= n; c++ {
+			r.Acts, r.RC = append(r.Acts, qa.Act{Op: "pop", Any: rng.Intn(2) == 0}), append(r.RC, c)
+		}
+		if round == 0 && rng.Intn(2) == 0 {
+			r.Acts, r.RC = append(r.Acts, qa.Act{Op: "close"}), append(r.RC, 0)
+		}
+		if k < nProd && rng.Intn(3) == 0 {
+			r.Acts, r.RC = append(r.Acts, qa.Act{Op: "paddw", Lane: "req", V: next()}), append(r.RC, k+1)
+		}
+		if len(r.Acts) < 2 {
+			r.Acts, r.RC = append(r.Acts, qa.Act{Op: "pop", Any: true}), append(r.RC, 4)
+		}
+		rng.Shuffle(len(r.Acts), func(i, j int) {
+			r.Acts[i], r.Acts[j] = r.Acts[j], r.Acts[i]
+			r.RC[i], r.RC[j] = r.RC[j], r.RC[i]
+		})
+		r.Delay = skews(rng, len(r.Acts))
+		plan = append(plan, r)
+	}
+	return plan
+}
+
 // racePri: a (nearly) full queue, a consumer that holds the token and Pops, together with Len()
 // pollers, pushers (rejected when full) and other poppers.
 func racePri(rng *rand.Rand, rcap int) (plan []act) {
@@ -1574,8 +1730,9 @@ func main() {
 	nrace := flag.Int("race", 0, "race rounds per list-queue type")
 	nprace := flag.Int("prace", 0, "priq race rounds")
 	nbatch := flag.Int("batch", 20, "worlds per lock-step batch")
-	rounds := flag.String("rounds", "enter,ctl,take,feed", "kinds of race rounds: enter (consumers entering Pop x close/adds), "+
-		"ctl ({close|try-close|try-clear} x adds), take (sleepers, adds x other Pops), feed (k sleepers, m adds)")
+	rounds := flag.String("rounds", "enter,ctl,take,feed,prod", "kinds of race rounds: enter (consumers entering Pop x close/adds), "+
+		"ctl ({close|try-close|try-clear} x adds), take (sleepers, adds x other Pops), feed (k sleepers, m adds), "+
+		"prod (producers asleep in AddAnyway on a full lane x Pops / close)")
 	npstress := flag.Int("npstress", 0, "additional priq stress runs")
 	flag.Parse()
 	rng := rand.New(rand.NewSource(*seed))
@@ -1682,6 +1839,11 @@ func main() {
 				queue(spec{"racetake", kind, 0, rcap, rep, raceParked(rng, kind, true)})
 			case "feed":
 				queue(spec{"racefeed", kind, 0, rcap, rep, raceParked(rng, kind, false)})
+			case "prod":
+				if kind != "syncq" { // no AddAnyway, no bound
+					pc := 1 + rng.Intn(2)
+					queue(spec{"raceprod", kind, 0, pc, rep, raceProd(rng, kind, pc)})
+				}
 			default:
 				queue(spec{"racectl", kind, 0, rcap, rep, raceCtl(rng, kind)})
 				if kind == "mq" { // three life-ending calls instead of one: proportionally more rounds
